@@ -7,6 +7,7 @@ From SU Require Import F32 F32Lemmas.
 From SU.Model Require Import PhaseAcc Adsr.
 From SU.Spec Require Import AdsrSpec.
 From SU.Proofs Require Import AdsrLevelProofs AdsrCurveProofs.
+From SU.Proofs Require Import AdsrTraceProofs.
 Open Scope R_scope.
 
 (** for every sample rate and every sequence of gate-on, gate-off, tick and parameter
@@ -73,6 +74,178 @@ Theorem C01_curve_fidelity : forall s, Inv s -> timed (a_state s) = true -> sync
   Rabs (R32 (a_value s) - ideal s) <= 0.005.
 Proof. exact curve_fidelity. Qed.
 
+(** trace level: for every legal sample rate and EVERY history of operations (any f32 arguments), the next tick keeps the value in [0,1], never lowers it in attack (ending exactly at 1.0), keeps it at or above the sustain level in decay and never raises it there when the state is in sync (see C01_synced_reachable / C01_synced_run_last for when that is), holds the sustain level in sustain, never raises it in release (ending exactly at 0.0) *)
+Theorem C01_trace_shape : forall fs ops, fs_ok fs ->
+  let s := adsr_run fs ops in
+  let s' := adsr_step s ATick in
+  (fin (a_value s') /\ 0 <= R32 (a_value s') <= 1) /\
+  (a_state s = Attack ->
+     R32 (a_value s) <= R32 (a_value s') /\
+     (a_state s' = Attack \/ (a_state s' = Decay /\ R32 (a_value s') = 1))) /\
+  (a_state s = Decay ->
+     R32 (a_sustain s) <= R32 (a_value s') /\
+     (synced s -> R32 (a_value s') <= R32 (a_value s)) /\
+     (a_state s' = Decay \/
+      (a_state s' = Sustain /\ R32 (a_value s') = R32 (a_sustain s)))) /\
+  (a_state s = Sustain ->
+     a_state s' = Sustain /\ R32 (a_value s') = R32 (a_sustain s)) /\
+  (a_state s = Release ->
+     R32 (a_value s') <= R32 (a_value s) /\
+     (a_state s' = Release \/ (a_state s' = AtRest /\ R32 (a_value s') = 0))) /\
+  (a_state s = AtRest ->
+     a_state s' = AtRest /\ R32 (a_value s') = 0).
+Proof. exact C01_trace_shape. Qed.
+
+(** decay is non-increasing at every tick of every history in which the sustain level has not been changed since the previous tick *)
+Theorem C01_trace_decay_monotone : forall fs pre post, fs_ok fs ->
+  Forall no_sustain_change post ->
+  let s := adsr_run fs (pre ++ ATick :: post) in
+  let s' := adsr_step s ATick in
+  a_state s = Decay ->
+  R32 (a_sustain s) <= R32 (a_value s') <= R32 (a_value s).
+Proof. exact C01_trace_decay_monotone. Qed.
+
+(** every reachable state outside decay and sustain is in sync (value = curve value of the counter) *)
+Theorem C01_synced_reachable : forall fs ops,
+  let s := adsr_run fs ops in
+  a_state s <> Decay -> a_state s <> Sustain -> synced s.
+Proof. exact synced_reachable. Qed.
+
+(** in decay/sustain the state is in sync unless the last operation changed the sustain level *)
+Theorem C01_synced_run_last : forall fs ops o,
+  match o with
+  | ATick | AGateOn | AGateOff => True
+  | ASetAttack _ | ASetDecay _ | ASetRelease _ => synced (adsr_run fs ops)
+  | ASetSustain _ =>
+      a_state (adsr_run fs ops) <> Decay /\ a_state (adsr_run fs ops) <> Sustain
+  end -> synced (adsr_run fs (ops ++ [o])).
+Proof. exact synced_run_last. Qed.
+
+(** time changes never disturb the value *)
+Theorem C01_synced_set_time : forall s t, synced s ->
+  synced (adsr_step s (ASetAttack t)) /\
+  synced (adsr_step s (ASetDecay t)) /\
+  synced (adsr_step s (ASetRelease t)).
+Proof. exact synced_set_time. Qed.
+
+(** a sustain change outside decay/sustain does not disturb the value *)
+Theorem C01_synced_set_sustain : forall s x, synced s ->
+  a_state s <> Decay -> a_state s <> Sustain ->
+  synced (adsr_step s (ASetSustain x)).
+Proof. exact synced_set_sustain. Qed.
+
+(** a sustain change in decay: the value is untouched by the call, the next tick is in sync again and at or above the new sustain level *)
+Theorem C01_sustain_change_in_decay : forall s x, Inv s -> a_state s = Decay ->
+  let s1 := adsr_step s (ASetSustain x) in
+  let s2 := adsr_step s1 ATick in
+  a_state s1 = Decay /\ a_value s1 = a_value s /\ a_sustain s1 = sustain_from x /\
+  synced s2 /\
+  (a_state s2 = Decay -> R32 (sustain_from x) <= R32 (a_value s2) <= 1) /\
+  (a_state s2 <> Decay -> a_state s2 = Sustain /\ R32 (a_value s2) = R32 (sustain_from x)).
+Proof. exact sustain_change_in_decay. Qed.
+
+(** a sustain change in sustain: the next tick moves the value to the new level *)
+Theorem C01_sustain_change_in_sustain : forall s x, Inv s -> a_state s = Sustain ->
+  let s1 := adsr_step s (ASetSustain x) in
+  let s2 := adsr_step s1 ATick in
+  a_state s1 = Sustain /\ a_value s1 = a_value s /\ a_sustain s1 = sustain_from x /\
+  (synced s1 <-> R32 (a_value s) = R32 (sustain_from x)) /\
+  a_state s2 = Sustain /\ R32 (a_value s2) = R32 (sustain_from x) /\ synced s2.
+Proof. exact sustain_change_in_sustain. Qed.
+
+(** witness for the reading "monotone for a fixed sustain level": raising the sustain level in mid-decay makes the next tick go UP (here from 0.339 to 1.0); no implementation can be non-increasing down to a level that was just raised above the output *)
+Theorem C01_decay_sustain_raise_jumps_up :
+  let s := adsr_run FS1k (raise_pre ++ [ATick]) in
+  let s1 := adsr_step s (ASetSustain f_1) in
+  let s2 := adsr_step s1 ATick in
+  a_state s = Decay /\ Inv s /\ synced s /\
+  a_state s1 = Decay /\ ~ synced s1 /\ R32 (a_value s1) < R32 (a_sustain s1) /\
+  a_state s2 = Decay /\
+  R32 (a_value s) < 0.34 /\ R32 (a_value s2) = 1 /\ R32 (a_value s) < R32 (a_value s2).
+Proof. exact decay_sustain_raise_jumps_up. Qed.
+
+(** in sync, the decay value lies between the sustain level and 1 *)
+Theorem C01_decay_above_sustain : forall s, Inv s -> a_state s = Decay -> synced s ->
+  R32 (a_sustain s) <= R32 (a_value s) <= 1.
+Proof. exact decay_above_sustain. Qed.
+
+(** in sync, the attack value lies between its start level and 1 *)
+Theorem C01_attack_above_start : forall s, Inv s -> a_state s = Attack -> synced s ->
+  R32 (a_von s) <= R32 (a_value s) <= 1.
+Proof. exact attack_above_start. Qed.
+
+(** in sync, the release value lies between 0 and its start level *)
+Theorem C01_release_below_start : forall s, Inv s -> a_state s = Release -> synced s ->
+  0 <= R32 (a_value s) <= R32 (a_voff s).
+Proof. exact release_below_start. Qed.
+
+(** trace level fidelity: right after any tick of any history the value is within 0.005 (full scale) of the documented RC curve and within 0.45% of the segment span + 6*2^-21 *)
+Theorem C01_trace_fidelity : forall fs ops,
+  let s := adsr_run fs (ops ++ [ATick]) in
+  timed (a_state s) = true ->
+  Rabs (R32 (a_value s) - ideal s) <= 0.005 /\
+  Rabs (R32 (a_value s) - ideal s) <= 45 / 10000 * span s + 6 / 2097152.
+Proof. exact C01_trace_fidelity. Qed.
+
+(** hence within 0.5% of the segment span whenever the span is at least 0.006 *)
+Theorem C01_trace_fidelity_rel : forall fs ops,
+  let s := adsr_run fs (ops ++ [ATick]) in
+  timed (a_state s) = true -> 0.006 <= span s ->
+  Rabs (R32 (a_value s) - ideal s) <= 0.005 * span s.
+Proof. exact C01_trace_fidelity_rel. Qed.
+
+(** witness that the absolute term is needed: with a span of one f32 ulp (sustain = 1 - 2^-24) the output cannot follow the curve closer than 11.9% of the span *)
+Theorem C01_span_relative_fidelity_fails :
+  let s := adsr_run FS1k (tiny_pre ++ [ATick]) in
+  a_state s = Decay /\ Inv s /\ synced s /\ span s = / 16777216 /\
+  0.1 * span s <= Rabs (R32 (a_value s) - ideal s).
+Proof. exact span_relative_fidelity_fails. Qed.
+
+(** non-vacuity: a reachable mid-cell attack state satisfying every hypothesis used above, strictly rising on the next tick *)
+Theorem C01_ex_attack_state :
+  let s := adsr_run FS1k [ASetAttack T100ms; AGateOn; ATick; ATick; ATick] in
+  a_state s = Attack /\ pa_acc (a_pa s) = 503316%Z /\
+  Z.land (pa_acc (a_pa s)) 16383 = 11796%Z /\ adsr_inc s = 167772%Z /\
+  to_bits (a_value s) = Some 1029328322%Z /\
+  Inv s /\ synced s /\ (adsr_inc s <= 4278190080)%Z /\
+  a_state (adsr_step s ATick) = Attack /\
+  R32 (a_value s) < R32 (a_value (adsr_step s ATick)).
+Proof. exact ex_attack_state. Qed.
+
+(** non-vacuity: decay *)
+Theorem C01_ex_decay_state :
+  let s := adsr_run FS1k [ASetDecay T100ms; ASetSustain f_half; AGateOn;
+                          ATick; ATick; ATick; ATick; ATick] in
+  a_state s = Decay /\ pa_acc (a_pa s) = 503316%Z /\
+  Z.land (pa_acc (a_pa s)) 16383 = 11796%Z /\ adsr_inc s = 167772%Z /\
+  to_bits (a_value s) = Some 1064386062%Z /\ to_bits (a_sustain s) = Some 1056964608%Z /\
+  Inv s /\ synced s /\ (adsr_inc s <= 4278190080)%Z /\
+  a_state (adsr_step s ATick) = Decay /\
+  R32 (a_value (adsr_step s ATick)) < R32 (a_value s).
+Proof. exact ex_decay_state. Qed.
+
+(** non-vacuity: sustain (the counter is 0 in every reachable sustain state) *)
+Theorem C01_ex_sustain_state :
+  let s := adsr_run FS1k [ASetSustain f_half; AGateOn; ATick; ATick; ATick; ATick; ATick] in
+  a_state s = Sustain /\ pa_acc (a_pa s) = 0%Z /\
+  to_bits (a_value s) = Some 1056964608%Z /\ to_bits (a_sustain s) = Some 1056964608%Z /\
+  Inv s /\ synced s /\ (adsr_inc s <= 4278190080)%Z /\
+  a_state (adsr_step s ATick) = Sustain /\
+  R32 (a_value (adsr_step s ATick)) = R32 (a_sustain s).
+Proof. exact ex_sustain_state. Qed.
+
+(** non-vacuity: release *)
+Theorem C01_ex_release_state :
+  let s := adsr_run FS1k [ASetRelease T100ms; ASetSustain f_half; AGateOn;
+                          ATick; ATick; ATick; AGateOff; ATick; ATick; ATick] in
+  a_state s = Release /\ pa_acc (a_pa s) = 503316%Z /\
+  Z.land (pa_acc (a_pa s)) 16383 = 11796%Z /\ adsr_inc s = 167772%Z /\
+  to_bits (a_value s) = Some 1055030299%Z /\ to_bits (a_voff s) = Some 1056964608%Z /\
+  Inv s /\ synced s /\ (adsr_inc s <= 4278190080)%Z /\
+  a_state (adsr_step s ATick) = Release /\
+  R32 (a_value (adsr_step s ATick)) < R32 (a_value s).
+Proof. exact ex_release_state. Qed.
+
 Print Assumptions C01_range.
 Print Assumptions C01_value_changes_only_on_tick.
 Print Assumptions C01_synced.
@@ -82,3 +255,22 @@ Print Assumptions C01_sustain.
 Print Assumptions C01_release.
 Print Assumptions C01_rest.
 Print Assumptions C01_curve_fidelity.
+Print Assumptions C01_trace_shape.
+Print Assumptions C01_trace_decay_monotone.
+Print Assumptions C01_synced_reachable.
+Print Assumptions C01_synced_run_last.
+Print Assumptions C01_synced_set_time.
+Print Assumptions C01_synced_set_sustain.
+Print Assumptions C01_sustain_change_in_decay.
+Print Assumptions C01_sustain_change_in_sustain.
+Print Assumptions C01_decay_sustain_raise_jumps_up.
+Print Assumptions C01_decay_above_sustain.
+Print Assumptions C01_attack_above_start.
+Print Assumptions C01_release_below_start.
+Print Assumptions C01_trace_fidelity.
+Print Assumptions C01_trace_fidelity_rel.
+Print Assumptions C01_span_relative_fidelity_fails.
+Print Assumptions C01_ex_attack_state.
+Print Assumptions C01_ex_decay_state.
+Print Assumptions C01_ex_sustain_state.
+Print Assumptions C01_ex_release_state.
